@@ -40,6 +40,9 @@ def gen_cases(rng, n):
             else:
                 mv.append(rng.rng(1, 300))
         cases.append(("P", s, "-" if rng.chance(3, 4) else rng.rng(0, 2 ** 32), mv))
+    # long runs from one seed (a slip that needs many draws to show: a counter, a periodic reseeding)
+    for ln in ([60000] if n <= 400 else [60000, 60000, 60000]):
+        cases.append(("P", rng.rng(1, P - 1), "-", [rng.choice([2, 3, 255, 256, 1024, 50000, 65536]) for _ in range(ln)]))
     return cases
 
 
